@@ -90,6 +90,7 @@ const (
 const (
 	flagAccessCalled uint8 = 1 << iota
 	flagReaccess
+	flagAccessStale
 )
 
 var (
@@ -865,6 +866,12 @@ func (s *Subscription) reaccess(t *rescache.Throttle) {
 
 	if s.queueFlag != 0 {
 		s.flags |= flagReaccess
+		// The access check is deferred, but the verdict at hand must not be
+		// used meanwhile, nor the answer to a request already in flight.
+		s.access = nil
+		if s.flags&flagAccessCalled != 0 {
+			s.flags |= flagAccessStale
+		}
 		return
 	}
 
@@ -904,6 +911,9 @@ func (s *Subscription) loadAccess(cb func(*rescache.Access), t *rescache.Throttl
 
 					cbs := s.accessCallbacks
 					s.flags &= ^flagAccessCalled
+					if s.retryStaleAccess(cbs) {
+						return
+					}
 					// Only store in case of an actual result or system.accessDenied error
 					if access.Error == nil || access.Error.Code == reserr.CodeAccessDenied {
 						s.access = access
@@ -926,6 +936,9 @@ func (s *Subscription) loadAccess(cb func(*rescache.Access), t *rescache.Throttl
 
 				cbs := s.accessCallbacks
 				s.flags &= ^flagAccessCalled
+				if s.retryStaleAccess(cbs) {
+					return
+				}
 				// Only store in case of an actual result or system.accessDenied error
 				if access.Error == nil || access.Error.Code == reserr.CodeAccessDenied {
 					s.access = access
@@ -938,6 +951,22 @@ func (s *Subscription) loadAccess(cb func(*rescache.Access), t *rescache.Throttl
 			})
 		})
 	}
+}
+
+// retryStaleAccess handles the answer to an access request that was in flight
+// when the token changed or a reaccess was demanded: the answer is discarded
+// and access is requested anew for the waiting callbacks. It returns false if
+// the answer is not stale.
+func (s *Subscription) retryStaleAccess(cbs []func(*rescache.Access)) bool {
+	if s.flags&flagAccessStale == 0 {
+		return false
+	}
+	s.flags &= ^flagAccessStale
+	s.accessCallbacks = nil
+	for _, cb := range cbs {
+		s.loadAccess(cb, nil)
+	}
+	return true
 }
 
 // CanGet checks asynchronously if the client connection has access to get (read)
